@@ -1,11 +1,19 @@
+import re
+
+
 class SeismicZfpVersion:
     def __init__(self, arg):
         if isinstance(arg, str):
-            version_numbers_tuple = tuple(part for part in arg.replace('rc', '.rc').split("."))
-            self.major = int(version_numbers_tuple[0])
-            self.minor = int(version_numbers_tuple[1])
-            self.patch = int(version_numbers_tuple[2])
-            self.changes_exist = len(version_numbers_tuple) > 3
+            # Accept everything setuptools_scm can emit, e.g. "0.2.9", "0.2.10.dev3+g1a2b3c4",
+            # "0.2.9+d20240101", "0.1.dev1+g1a2b3c4": missing components are zero and any
+            # suffix after the release numbers (rc/dev/post/local) marks a changed tree.
+            match = re.match(r'^\s*v?(\d+)(?:\.(\d+))?(?:\.(\d+))?(.*)$', arg)
+            if match is None:
+                raise ValueError(f"Cannot parse version string '{arg}'")
+            self.major = int(match.group(1))
+            self.minor = int(match.group(2) or 0)
+            self.patch = int(match.group(3) or 0)
+            self.changes_exist = len(match.group(4).strip()) > 0
         elif isinstance(arg, int):
             self.major = arg//(1024*2048)
             self.minor = (arg - self.major*1024*2048) // 2048
